@@ -58,7 +58,7 @@ CLAIMED = {
     },
     "C12": {
         "technique": "Coq proof (corollaries of the safety invariant and of the byte-memory lemmas for the Allocator entry points) + Allocator-trait driver",
-        "text": "C12_block_fits / C12_grow_keeps_prefix / C12_shrink_keeps_prefix / C12_grow_zeroed_tail / C12_err_keeps_old / C12_deallocate_any_order; every deallocate/grow/grow_zeroed/shrink in the arena histories goes through allocator_api2's Allocator on &Bump<M>, with differing old/new alignments, zero sizes, lucky alignments, several live blocks. " + ARENA_TEXT + "Partial: standard collections parameterised by the arena are not exercised.",
+        "text": "C12_block_fits / C12_grow_keeps_prefix / C12_shrink_keeps_prefix / C12_grow_zeroed_tail / C12_err_keeps_old / C12_deallocate_any_order / C12_source_dealloc / C12_source_shrink / C12_source_grow / C12_model_assembled_from_source_parts (every branch condition, finger computation and copy length of Bump::dealloc, shrink and grow is extracted from lib.rs on every run and equals the piece of the model it stands for); every deallocate/grow/grow_zeroed/shrink in the arena histories goes through allocator_api2's Allocator on &Bump<M>, with differing old/new alignments, zero sizes, lucky alignments, several live blocks. " + ARENA_TEXT + "Partial: standard collections parameterised by the arena are not exercised.",
         "design_ref": "DESIGN.md §6 C12",
     },
     "C13": {
